@@ -138,6 +138,26 @@ theorem not_delayed (dl dl' : Option Int) (it : Iter) :
     · cases hs; rw [hw]; exact sleepUntil_woken hlt
     · cases hs
 
+/-- **An interrupted sleep is never consistency.** Whatever ends the barrier sleep before its
+    deadline — a new event, or the pressure raised by the exiting watcher together with its
+    end-of-stream marker — the iteration returns early: not achieved, held back, no change handler. -/
+theorem interrupted_never_achieved (dl : Option Int) (it : Iter) (s : Slept)
+    (hs : (process dl it).slept = some s) (hw : s.timedOut = false) :
+    (process dl it).achieved = false ∧ (process dl it).held = true ∧
+      (process dl it).entered = none ∧ (process dl it).handlers = none := by
+  cases dl with
+  | none => simp [process] at hs
+  | some d =>
+    unfold process at hs ⊢
+    simp only at hs ⊢
+    split at hs
+    · rename_i hc
+      simp only [Option.some.injEq] at hs
+      simp only [hc, if_true, hs, hw]
+      simp only [Bool.and_eq_true] at hc
+      simp [hc.1.1.1]
+    · cases hs
+
 /-- **Disabled.** With `consistency_timeout = 0` the worker never expects anything, the processor is
     always called with `consistency_time = None`, never sleeps, and holds change handlers back only
     for a patch that was pending at the entry. -/
@@ -220,6 +240,10 @@ example : wf 320 320 Cfg.init ([] ++ .event exK :: ([.event exForeign] ++ .event
 example : wf 320 320 Cfg.init ([] ++ .event exK :: ([] ++ .event exStale :: [])) = true := by decide
 example : some (⟨106, false⟩ : Ver) ∈ [Step.event exForeign].map Step.ver ++ [exEcho.ver] := by decide
 example : exK.tp + 320 ≤ (423 : Int) := by decide
+-- the exiting watcher raises the pressure 20 ticks into the sleep of a stale view: held, not released
+example : outcomeAt 320 (exec 320 Cfg.init [.event exK]) { exStale with wake := some 20, tp := 130, tret := 130 } =
+    { given := some 423, low := [(.indexing, 110), (.watching, 110), (.spawning, 110)],
+      slept := some ⟨130, false⟩, achieved := false, held := true, entered := none, handlers := none } := by decide
 -- a retirement of the idle worker is well-formed only at or after the deadline
 example : okStep 320 (exec 320 Cfg.init [.event exK]) (.retire 422) = false := by decide
 example : okStep 320 (exec 320 Cfg.init [.event exK]) (.retire 423) = true := by decide
